@@ -38,7 +38,7 @@ class _Null(io.TextIOBase):
 _DEVNULL = _Null()
 MAX_VIOLATIONS = 12
 READERS = ["svg2paths", "svg2paths2", "svg2paths_stream", "svgstr2paths", "document", "document_stream",
-           "document_string", "sax", "svg2paths_textstream", "document_textstream"]
+           "document_string", "sax", "svg2paths_textstream", "document_textstream", "sax_reused"]
 WRITE_OPS = ("wsvg", "disvg", "doc_save", "doc_display", "sax_resave")
 
 
@@ -147,13 +147,14 @@ class GNode:
 
 
 class Tree:
-    __slots__ = ("svg_attrs", "children", "writer", "shapes")
+    __slots__ = ("svg_attrs", "children", "writer", "shapes", "dless")
 
     def __init__(self, svg_attrs=None, writer="?"):
         self.svg_attrs = dict(svg_attrs or {})
         self.children = []
         self.writer = writer
         self.shapes = False      # the document also holds circles/rects/... (not modelled, filtered on read)
+        self.dless = False       # ... or a <path> without d: svg2paths refuses such a file (KeyError), by design
 
     def clone(self):
         def cl(n):
@@ -165,6 +166,7 @@ class Tree:
         t = Tree(self.svg_attrs, self.writer)
         t.children = [cl(c) for c in self.children]
         t.shapes = self.shapes
+        t.dless = self.dless
         return t
 
     def flat(self):
@@ -359,7 +361,7 @@ def match(result, tree, reader, check_attrs=True, attr_filter=None):
         if not (check_attrs and attrs is not None and e.attrs):
             return True
         a = attrs[j]
-        styled = style_keys(e.attrs) if reader == "sax" else ()
+        styled = style_keys(e.attrs) if reader.startswith("sax") else ()
         for k0, v in e.attrs.items():
             if (attr_filter is not None and k0 not in attr_filter) or k0 in styled:
                 continue
@@ -388,7 +390,7 @@ def match(result, tree, reader, check_attrs=True, attr_filter=None):
             if not e.attrs:
                 continue
             a = attrs[pairing[i]]
-            styled = style_keys(e.attrs) if reader == "sax" else ()
+            styled = style_keys(e.attrs) if reader.startswith("sax") else ()
             for k0, v in e.attrs.items():
                 if attr_filter is not None and k0 not in attr_filter:
                     continue
@@ -415,10 +417,11 @@ def match(result, tree, reader, check_attrs=True, attr_filter=None):
 # the world
 # ----------------------------------------------------------------------------------------------
 
+DLESS = 7      # index of the <path> without a d attribute in SHAPES
 SHAPES = ['<rect x="1" y="2" width="30" height="40" fill="none"/>', '<circle cx="5" cy="5" r="2" id="c1"/>',
           '<ellipse cx="1" cy="2" rx="3" ry="4"/>', '<line x1="0" y1="0" x2="10" y2="5" stroke="red"/>',
           '<polyline points="0,0 1,1 2,0" class="pl"/>', '<polygon points="0,0 4,4 8,0"/>',
-          '<rect x="0" y="0" width="5" height="5" rx="1" ry="1"/>']
+          '<rect x="0" y="0" width="5" height="5" rx="1" ry="1"/>', '<path id="placeholder" class="todo"/>']
 
 
 class ShortReadStream(io.RawIOBase):
@@ -456,6 +459,7 @@ class World:
         self.docs = {}
         self.named_lists = {}
         self.path_objs = {}      # reuse key -> live Path object (volatile: gone after a restart)
+        self.sax_obj = None      # a SaxDocument object kept between reads (volatile)
         self.encodings = {}      # file -> text encoding, for the harness's own text-mode/str adapters
         self.log = []
         self.violations = []
@@ -534,6 +538,7 @@ class World:
         self.docs.clear()
         self.named_lists.clear()
         self.path_objs.clear()
+        self.sax_obj = None
         self.fs.kill_handles()
         gc.collect()
         self.fs.kill_handles()
@@ -560,6 +565,8 @@ class World:
                 # the property speaks about paths: circles/rects/... that a file also holds (disvg's nodes=,
                 # shapes in a hand-made file) are returned by the readers as converted paths, by design;
                 # they are recognised by having no `d` attribute of their own and left out of the comparison
+                if len(p) != len(a):
+                    return p, a            # the two lists do not even pair up: let the comparison say so
                 keep = [i for i, x in enumerate(a) if "d" in x]
                 return [p[i] for i in keep], [a[i] for i in keep]
             if reader == "svg2paths":
@@ -612,18 +619,31 @@ class World:
                     if data is None:
                         raise FileNotFoundError(name)
                     doc = Document.from_svg_string(data.decode(self.enc_of(name)))
-                ps = [q for q in doc.paths() if is_path_elem(q.element)]
+                ps = [q for q in doc.paths() if is_path_elem(q.element) and "d" in q.element.attrib]
                 return ("ok", (ps, [dict(q.element.attrib) for q in ps], dict(doc.root.attrib)))
+            if reader == "sax_reused":
+                # ONE reader object used for one file after the other (sax_parse is a public method)
+                sx = self.sax_obj
+                if sx is None:
+                    sx = self.sax_obj = SaxDocument(name)
+                else:
+                    self.probe("reader_object_used_for_a_second_file")
+                    sx.sax_parse(name)
+                ps = sx.flatten_all_paths()
+                keep = [i for i, v in enumerate(sx.tree) if v.get("name", "path") == "path" and v.get("d", "x") != ""]
+                return ("ok", ([ps[i] for i in keep], [dict(sx.tree[i]) for i in keep], dict(sx.root_values)))
             if reader == "sax":
                 sx = SaxDocument(name)
                 ps = sx.flatten_all_paths()
-                keep = [i for i, v in enumerate(sx.tree) if v.get("name", "path") == "path"]
+                keep = [i for i, v in enumerate(sx.tree) if v.get("name", "path") == "path" and v.get("d", "x") != ""]
                 return ("ok", ([ps[i] for i in keep], [dict(sx.tree[i]) for i in keep], dict(sx.root_values)))
         except SimCrash:
             raise
         except HarnessError:
             raise
         except Exception as e:
+            if reader == "sax_reused":
+                self.sax_obj = None
             return ("raised", type(e).__name__)
         raise HarnessError("unknown reader %r" % reader)
 
@@ -650,6 +670,10 @@ class World:
         afilter = tree0.svg_attrs.get("__attr_filter__") if False else None
         if fm.status == "complete":
             tree = fm.alts[0]
+            if oc[0] != "ok" and tree.dless and rd.startswith(("svg2paths", "svgstr2paths")) and oc[1] == "KeyError":
+                # a <path> without d: svg2paths refuses the whole file; refusing is allowed, wrong data is not
+                self.probe("svg2paths_refused_file_with_dless_path")
+                return
             if oc[0] != "ok":
                 self.violate(idx, "read_failed", {"file": name, "raised": oc[1]}, tree.writer, tree.shape(), rd, fault)
                 return
@@ -947,7 +971,7 @@ class World:
             self.violate(idx, "read_failed", {"file": name, "status": oc[0]}, fm.alts[-1].writer,
                          fm.alts[-1].shape(), "document", fault)
             return oc[0]
-        ps = [q for q in oc[1] if is_path_elem(q.element)]
+        ps = [q for q in oc[1] if is_path_elem(q.element) and "d" in q.element.attrib]
         res = (ps, [dict(q.element.attrib) for q in ps], dict(doc.root.attrib))
         chosen = None
         for tree in fm.alts:
@@ -1100,12 +1124,34 @@ class World:
             self.violate(idx, "read_failed", {"status": st, "op": "Document.paths()"}, "document", dm.tree.shape(),
                          "document-live")
             return
-        ps = [q for q in ps if is_path_elem(q.element)]
+        ps = [q for q in ps if is_path_elem(q.element) and "d" in q.element.attrib]
         res = (ps, [dict(q.element.attrib) for q in ps], dict(dm.obj.root.attrib))
         m = match(res, dm.tree, "document-live")
         self.bump(self.counters, "document_live_query_checked")
         if m is not None:
             self.violate(idx, m[0], m[1], "document:" + dm.origin.split(":")[0], dm.tree.shape(), "document-live")
+
+    def op_doc_mutate_result(self, idx, op, entry):
+        """The caller edits (appends to / deletes from) a Path object returned by Document.paths(): that is
+        the caller's object; the document's elements are untouched, so every later query must still return
+        what was added."""
+        if op["doc"] not in self.docs:
+            return "skipped"
+        dm = self.docs[op["doc"]]
+        st, ps, _ = self.run({"faults": []}, lambda: dm.obj.paths())
+        if st != "ok" or not ps:
+            return "skipped"
+        p = ps[op.get("i", 0) % len(ps)]
+        try:
+            if op.get("how") == "del" and len(p) > 0:
+                del p[0]
+            else:
+                p.append(Line(cz(op.get("z", [1.0, 2.0])), cz(op.get("z2", [3.0, 4.0]))))
+        except Exception:
+            return "skipped"
+        self.probe("query_result_edited_by_the_caller")
+        self.check_doc(idx, op, dm)
+        return "ok"
 
     def op_doc_paths(self, idx, op, entry):
         if op["doc"] not in self.docs:
@@ -1139,7 +1185,7 @@ class World:
         if not recursive:
             sub.children = [c for c in sub.children if isinstance(c, PNode)]
             self.probe("paths_from_group_not_recursive")
-        ps = [q for q in ps if is_path_elem(q.element)]
+        ps = [q for q in ps if is_path_elem(q.element) and "d" in q.element.attrib]
         res = (ps, [dict(q.element.attrib) for q in ps], None)
         m = match(res, sub, "document-live-group")
         if m is not None:
@@ -1252,6 +1298,7 @@ class World:
             if "shape" in item:
                 lines.append("  " + SHAPES[item["shape"] % len(SHAPES)])
                 tree.shapes = True
+                tree.dless = tree.dless or item["shape"] % len(SHAPES) == DLESS
                 self.probe("foreign_file_with_other_shapes")
             elif "group" in item:
                 g = GNode(item["group"], {"id": item["group"]})
@@ -1261,6 +1308,7 @@ class World:
                     if "shape" in spec:
                         lines.append("    " + SHAPES[spec["shape"] % len(SHAPES)])
                         tree.shapes = True
+                        tree.dless = tree.dless or spec["shape"] % len(SHAPES) == DLESS
                     else:
                         emit(spec, "    ", g)
                 lines.append("  </g>")
@@ -1333,6 +1381,7 @@ class World:
         self.docs.clear()
         self.named_lists.clear()
         self.path_objs.clear()
+        self.sax_obj = None
         gc.collect()
         if self.fs.handles:
             self.probe("handle_left_open_at_restart")
@@ -1418,6 +1467,7 @@ class Gen:
             "doc_display": c.choice([0, 0, 1]), "doc_paths": c.choice([0, 1]),
             "doc_paths_from_group": c.choice([0, 1]), "sax_resave": c.choice([0, 0, 1]),
             "doc_set_root_attr": c.choice([0, 1]), "foreign_file": c.choice([0, 0, 1, 2]),
+            "doc_mutate_result": c.choice([0, 0, 1]),
             "read": c.choice([0, 1, 2]), "restart": c.choice([0, 0, 1]), "chdir": c.choice([0, 0, 0, 1]),
         }
         if self.w_ops["wsvg"] + self.w_ops["disvg"] + self.w_ops["doc_new"] == 0:
@@ -1714,10 +1764,10 @@ class Gen:
                     sp["attrs"] = self.attrs(a, sp["pid"])
                     items.append(sp)
                 if a.random() < 0.3:
-                    items.append({"shape": a.randrange(7)})
+                    items.append({"shape": a.randrange(8)})
             for it in items:
                 if "group" in it and a.random() < 0.3:
-                    it["paths"].insert(a.randrange(len(it["paths"]) + 1), {"shape": a.randrange(7)})
+                    it["paths"].insert(a.randrange(len(it["paths"]) + 1), {"shape": a.randrange(8)})
             for it in items:          # hand-made files: plain Path objects only
                 for sp in ([it] if "segs" in it else it.get("paths", [])):
                     sp.pop("reuse", None); sp.pop("edit", None); sp.pop("np", None)
@@ -1813,6 +1863,9 @@ class Gen:
             return op
         if k == "doc_display":
             return {"op": k, "doc": d, "file": a.choice([None, None] + self.files)}
+        if k == "doc_mutate_result":
+            return {"op": k, "doc": d, "i": a.randrange(8), "how": a.choice(["append", "del"]), "z": self.pt(a),
+                    "z2": self.pt(a)}
         if k == "doc_paths":
             return {"op": k, "doc": d}
         if k == "doc_paths_from_group":
@@ -1974,6 +2027,8 @@ EXPECTED_PROBES = [
     "add_path_into_element_handle", "browser_opened", "document_loaded_from_wsvg", "document_loaded_from_sax",
     "pathlib_file_name", "paths_from_group_not_recursive", "document_loaded_from_foreign",
     "same_path_object_written_again", "segment_edited_in_place_between_two_writes", "group_given_as_plain_string",
+    "reader_object_used_for_a_second_file", "query_result_edited_by_the_caller", "foreign_file_with_other_shapes",
+    "nodes_drawn_as_circles", "working_directory_changed",
 ]
 
 
